@@ -117,6 +117,16 @@ func underConstruction(info *types.Info, fd *ast.FuncDecl, e ast.Expr) bool {
 	if call, ok := init.(*ast.CallExpr); ok && isBuiltinCall(info, call, "new") {
 		return true
 	}
+	// an element of a slice that was made in this function: slot := &storage[i]
+	if ix, ok := init.(*ast.IndexExpr); ok {
+		if sid, ok := ast.Unparen(ix.X).(*ast.Ident); ok {
+			if sinit := initOf(info, fd, sid); sinit != nil {
+				if call, ok := ast.Unparen(sinit).(*ast.CallExpr); ok && isBuiltinCall(info, call, "make") {
+					return true
+				}
+			}
+		}
+	}
 	return false
 }
 
@@ -425,6 +435,12 @@ func (c *Ctx) searchFrom(root types.Type, rootName string, allow func(t types.Ty
 						break
 					}
 					return it.path + " -> " + full, "a mutable standard-library value type"
+				case "math/rand.Rand", "math/rand/v2.Rand", "math/rand/v2.PCG", "math/rand/v2.ChaCha8",
+					"bufio.Reader", "bufio.Writer", "bufio.Scanner", "bufio.ReadWriter":
+					if target != nil {
+						break
+					}
+					return it.path + " -> " + full, "a standard-library object whose methods change its state and that is documented as not safe for concurrent use"
 				}
 			}
 		}
